@@ -565,11 +565,18 @@ impl Compiler {
             result: result_reg,
         });
 
+        // Each iteration gets its own scope for the loop variable, so that a
+        // closure created in the body keeps the value of its iteration
+        self.push_scope()?;
+
         // Bind to left side
         self.compile_for_in_of_left(&for_in.left, value_reg)?;
 
         // Compile body
         self.compile_statement_impl(&for_in.body)?;
+
+        // Pop per-iteration scope
+        self.pop_scope();
 
         // Jump back to start
         self.builder.emit_jump_to(loop_start);
@@ -663,6 +670,10 @@ impl Compiler {
             });
         }
 
+        // Each iteration gets its own scope for the loop variable, so that a
+        // closure created in the body keeps the value of its iteration
+        self.push_scope()?;
+
         // Bind to left side
         self.compile_for_in_of_left(&for_of.left, value_reg)?;
 
@@ -678,6 +689,9 @@ impl Compiler {
 
         // Pop iterator try handler (normal completion, no exception)
         self.builder.emit(Op::PopIterTry);
+
+        // Pop per-iteration scope
+        self.pop_scope();
 
         // Jump back to start
         self.builder.emit_jump_to(loop_start);
